@@ -82,14 +82,16 @@ Example all_counts_nontrivial :
   /\ refines_proved AbsFO (mkSk ZO 0 12 EFO true false true false true true) = true
   /\ refines_proved (Transits 3 true) ex_big = true /\ refines_proved (Transits 0 true) ex_big = true
   /\ refines_proved (Transits 77 true) ex_big = true /\ refines_proved (Transits 40 true) ex_big = true
-  /\ refines_proved (Transits 3 false) ex_big = false
+  /\ refines_proved (Transits 3 false) ex_big = true /\ refines_proved (Transits 55 false) ex_big = true
+  /\ refines_proved (Transits 17 false) (mkSk SEQ 0 6 EMM true false true true false true) = true
+  /\ open_case (Transits 17 false) (mkSk SEQ 0 6 EMM true false true true false true) = false
   /\ refines_proved (Transits 12 false) (mkSk ZO 0 9 EMM false false true false true true) = true
   /\ refines_proved (Transits 1 true) (mkSk INST 0 9 EMM true false true false true true) = true
   /\ refines_proved (Transits 2 true) (mkSk INST 0 9 EMM true false true false true true) = false
   /\ refines_proved_for_all_counts PerRem = true
   /\ open_case (Transits 3 true) ex_big = false /\ guard (Transits 0 true) (mkSk FO 33 8 EMIX false true true false true false) = true
   /\ open_case (Transits 0 true) (mkSk FO 33 8 EMIX false true true false true false) = false
-  /\ open_case (Transits 3 false) ex_big = true /\ open_case AbsInst ex_big = true /\ open_case (PerSet 27) ex_big = true
+  /\ open_case (Transits 3 false) ex_big = false /\ open_case AbsInst ex_big = false /\ refines_proved AbsInst ex_big = true /\ open_case (PerSet 27) ex_big = true
   /\ open_case AbsSeq (mkSk INST 0 2 EFO false false false false false false) = true
   /\ valid ex_big = true /\ guard PerAdd ex_big = true /\ guard (PerSet 3) ex_big = true /\ guard ElMix ex_big = true
   /\ guard AbsSeq ex_big = true.
